@@ -1703,3 +1703,275 @@ RECIPES += [
     ("C13", "neutral", [], B, '        if np.iscomplexobj(m):\n            mtype = 4 if m.dtype.itemsize > 8 else 3\n        else:\n            mtype = 2 if m.dtype.itemsize > 4 else 1\n', '        mtype = {(False, False): 1, (False, True): 2, (True, False): 3, (True, True): 4}[\n            bool(np.iscomplexobj(m)), m.dtype.itemsize > (8 if np.iscomplexobj(m) else 4)\n        ]\n', 'wtdmig: matrix type from a dict keyed by (is complex, is double)'),
     ("C13", "neutral", [], B, '    output = [f"SET {setid:d} = "]\n    start = 0\n    while start < length:\n        end = _find_sequence(ids, start)\n        if end > start:\n            output.append(f"{ids[start]:d} THRU {ids[end]:d}, ")\n            start = end + 1\n        else:\n            output.append(f"{ids[start]:d}, ")\n            start += 1\n    output[-1] = output[-1].rstrip(", ")  # strip the trailing comma from the last item\n', '    output = [f"SET {setid:d} = "]\n    start = 0\n    while start < length:\n        end = _find_sequence(ids, start)\n        item = f"{ids[start]:d}" if end == start else f"{ids[start]:d} THRU {ids[end]:d}"\n        output.append(item + ", ")\n        start = end + 1\n    output[-1] = output[-1].rstrip(", ")  # strip the trailing comma from the last item\n', 'wtset: the item by a conditional expression, one update of the cursor'),
 ]
+
+# ---- constructs met in the second blind round: value objects with methods, callable objects, bound format methods, templates put into templates,
+# ---- a count of what is left instead of a position, the length of a range, a queue of cards
+_CSUPER_TAIL = '''    f.write(f"CSUPER  {superid:8d}{0:8d}")
+    wtnasints(f, 4, grids)
+'''
+
+RECIPES += (
+    _pair('''    head = _CsuperHead(superid)
+    f.write(head.text())
+    wtnasints(f, head.start, grids)
+
+
+class _CsuperHead:
+    """The fields of a CSUPER card that come before the grid ids."""
+
+    def __init__(self, superid):
+        self.superid = superid
+        self.start = 4  # field in which the grid ids start
+
+    def text(self):
+        return f"CSUPER  {self.superid:8d}{0:8d}"
+''', '''    head = _CsuperHead(superid)
+    f.write(head.text())
+    wtnasints(f, head.start, grids)
+
+
+class _CsuperHead:
+    """The fields of a CSUPER card that come before the grid ids."""
+
+    def __init__(self, superid):
+        self.superid = superid
+        self.start = 3  # field in which the grid ids start
+
+    def text(self):
+        return f"CSUPER  {self.superid:8d}{0:8d}"
+''', _CSUPER_TAIL, ["C13-R4"], "wtcsuper: the head of the card in a small class (attributes set in __init__, a method renders the text)", "the start field held by the object is 3")
+    + _pair('''    _wt_with_thru(f, spoints, _SpointStarter(f))
+
+
+class _SpointStarter:
+    """Callable that writes the finished card and starts the next one."""
+
+    def __init__(self, f):
+        self.f = f
+
+    def __call__(self, fields, write=True):
+        if write:
+            wtcard8(self.f, fields)
+        return ["SPOINT"]
+''', '''    _wt_with_thru(f, spoints[:-1], _SpointStarter(f))
+
+
+class _SpointStarter:
+    """Callable that writes the finished card and starts the next one."""
+
+    def __init__(self, f):
+        self.f = f
+
+    def __call__(self, fields, write=True):
+        if write:
+            wtcard8(self.f, fields)
+        return ["SPOINT"]
+''', _SPOINTS_TAIL, ["C13-R4"], "wtspoints: the closure replaced by a callable object", "the last id is not handed on")
+    + _pair("""    if title:
+        f.write(f"$ {title:s}\\n")
+    layout = _Tabled1Layout.for_width(n)
+    f.write(layout.first_line(tablestr, tid))
+    rows = npts // layout.per_line
+    r = rows * layout.per_line
+    if rows:
+        writer.vecwrite(f, layout.full_line(form), *layout.columns(t, d, r))
+    f.write(layout.cont)
+    for j in range(r, npts):
+        f.write(form.format(t[j], d[j]))
+    f.write("ENDT\\n")
+
+
+class _Tabled1Layout(NamedTuple):
+    star: str
+    head: str
+    cont: str
+    per_line: int
+
+    @classmethod
+    def for_width(cls, n):
+        if n == 32:
+            return cls("*", "{:<8s}{:16d}\\n*\\n", "*       ", 2)
+        return cls("", "{:<8s}{:8d}\\n", "        ", 4)
+
+    def first_line(self, tablestr, tid):
+        return self.head.format(tablestr + self.star, tid)
+
+    def full_line(self, form):
+        return self.cont + form * self.per_line + "\\n"
+
+    def columns(self, t, d, stop):
+        cols = []
+        for j in range(self.per_line):
+            cols.extend((t[j : stop : self.per_line], d[j : stop : self.per_line]))
+        return cols
+""", """    if title:
+        f.write(f"$ {title:s}\\n")
+    layout = _Tabled1Layout.for_width(n)
+    f.write(layout.first_line(tablestr, tid))
+    rows = npts // layout.per_line
+    r = rows * layout.per_line
+    if rows:
+        writer.vecwrite(f, layout.full_line(form), *layout.columns(t, d, r))
+    f.write(layout.cont)
+    for j in range(r, npts):
+        f.write(form.format(t[j], d[j]))
+    f.write("ENDT\\n")
+
+
+class _Tabled1Layout(NamedTuple):
+    star: str
+    head: str
+    cont: str
+    per_line: int
+
+    @classmethod
+    def for_width(cls, n):
+        if n == 32:
+            return cls("*", "{:<8s}{:16d}\\n*\\n", "*       ", 2)
+        return cls("", "{:<8s}{:8d}\\n", "        ", 5)
+
+    def first_line(self, tablestr, tid):
+        return self.head.format(tablestr + self.star, tid)
+
+    def full_line(self, form):
+        return self.cont + form * self.per_line + "\\n"
+
+    def columns(self, t, d, stop):
+        cols = []
+        for j in range(self.per_line):
+            cols.extend((t[j : stop : self.per_line], d[j : stop : self.per_line]))
+        return cols
+""", _T1_TITLE_BODY, ["C13-R1"], "wttabled1: the layout in a NamedTuple made by a classmethod, lines and columns from its methods", "five pairs on a small-field line")
+    # bound format methods, a template put into a template
+    + _pair('''                        fmt_id = "{:16d}".format
+                        fmt_num = ("{:%d.%dE}" % (16, 9)).format
+                        if mtype < 3:  # real
+                            num_str = fmt_num(num)
+                        else:  # complex
+                            num_str = fmt_num(num.real) + fmt_num(num.imag)
+                        if mtype & 1 == 0:  # if even
+                            num_str = num_str.replace("E", "D")
+                        f.write("*".ljust(8) + fmt_id(gi) + fmt_id(ci) + num_str + "\\n")
+''', '''                        fmt_id = "{:16d}".format
+                        fmt_num = ("{:%d.%dE}" % (16, 9)).format
+                        if mtype < 3:  # real
+                            num_str = fmt_num(num)
+                        else:  # complex
+                            num_str = fmt_num(num.real) + fmt_num(num.imag)
+                        if mtype & 1 == 0:  # if even
+                            num_str = num_str.replace("E", "D")
+                        f.write("*".ljust(8) + fmt_id(ci) + fmt_id(gi) + num_str + "\\n")
+''', _DMIG_TERM, ["C13-R3"], "wtdmig: fields through bound format methods, the spec of the numbers computed at run time (F12 keys must survive)", "row dof before row grid")
+    + _pair('''    field = "{:8d}"
+    blank = "{:8s}"  # for the first field of the continuation lines
+    n = len(ints)
+    firstline = 10 - start
+    if n >= firstline:
+        i = firstline
+        f.write("".join([field * i, "\\n"]).format(*ints[:i]))
+        full = "{}{}\\n".format(blank, field * 8)
+        while n >= i + 8:
+            f.write(full.format("", *ints[i : i + 8]))
+            i += 8
+        if n > i:
+            n -= i
+            f.write("{}{}\\n".format(blank, field * n).format("", *ints[i:]))
+    else:
+        f.write("".join([field * n, "\\n"]).format(*ints))
+''', '''    field = "{:8d}"
+    blank = "{:8s}"  # for the first field of the continuation lines
+    n = len(ints)
+    firstline = 10 - start
+    if n >= firstline:
+        i = firstline
+        f.write("".join([field * i, "\\n"]).format(*ints[:i]))
+        full = "{}{}\\n".format(blank, field * 8)
+        while n >= i + 8:
+            f.write(full.format("", *ints[i : i + 8]))
+            i += 8
+        if n > i:
+            n -= i
+            f.write("{}{}\\n".format(blank, field * 8).format("", *ints[i:]))
+    else:
+        f.write("".join([field * n, "\\n"]).format(*ints))
+''', _NASINTS, ["C13-R4"], "wtnasints: the line templates assembled by putting templates into a template", "the last line always gets 8 fields")
+    # a count of what is left; the number of full lines as the length of a range
+    + _pair('''    n = len(ints)
+    firstline = 10 - start
+    if n >= firstline:
+        f.write(("{:8d}" * firstline + "\\n").format(*ints[:firstline]))
+        left = n - firstline  # integers that remain to be written; the next one is ints[n - left]
+        while left >= 8:
+            f.write(("{:8s}" + "{:8d}" * 8 + "\\n").format("", *ints[n - left : n - left + 8]))
+            left -= 8
+        if left > 0:
+            f.write(("{:8s}" + "{:8d}" * left + "\\n").format("", *ints[n - left :]))
+    else:
+        f.write(("{:8d}" * n + "\\n").format(*ints))
+''', '''    n = len(ints)
+    firstline = 10 - start
+    if n >= firstline:
+        f.write(("{:8d}" * firstline + "\\n").format(*ints[:firstline]))
+        left = n - firstline  # integers that remain to be written; the next one is ints[n - left]
+        while left >= 8:
+            f.write(("{:8s}" + "{:8d}" * 8 + "\\n").format("", *ints[n - left : n - left + 8]))
+            left -= 8
+        if left > 1:
+            f.write(("{:8s}" + "{:8d}" * left + "\\n").format("", *ints[n - left :]))
+    else:
+        f.write(("{:8d}" * n + "\\n").format(*ints))
+''', _NASINTS, ["C13-R4"], "wtnasints: the loop counts the integers left to write", "a single integer left is not written")
+    + _pair('''    n = len(ints)
+    firstline = 10 - start
+    if n >= firstline:
+        f.write(("{:8d}" * firstline + "\\n").format(*ints[:firstline]))
+        starts = range(firstline, n - 7, 8)  # where the full continuation lines start
+        for i in starts:
+            f.write(("{:8s}" + "{:8d}" * 8 + "\\n").format("", *ints[i : i + 8]))
+        i = firstline + 8 * len(starts)
+        if n > i:
+            n -= i
+            f.write(("{:8s}" + "{:8d}" * n + "\\n").format("", *ints[i:]))
+    else:
+        f.write(("{:8d}" * n + "\\n").format(*ints))
+''', '''    n = len(ints)
+    firstline = 10 - start
+    if n >= firstline:
+        f.write(("{:8d}" * firstline + "\\n").format(*ints[:firstline]))
+        starts = range(firstline, n - 6, 8)  # where the full continuation lines start
+        for i in starts:
+            f.write(("{:8s}" + "{:8d}" * 8 + "\\n").format("", *ints[i : i + 8]))
+        i = firstline + 8 * len(starts)
+        if n > i:
+            n -= i
+            f.write(("{:8s}" + "{:8d}" * n + "\\n").format("", *ints[i:]))
+    else:
+        f.write(("{:8d}" * n + "\\n").format(*ints))
+''', _NASINTS, ["C13-R4"], "wtnasints: the full lines from a range object, what is left from its length", "a line of 8 fields is started when only 7 integers are left")
+    + [("C13", "neutral", [], B, '''    f.write(f"CSUPER  {superid:8d}{0:8d}")
+    wtnasints(f, 4, grids)
+''', '''    f.write("CSUPER".ljust(8) + "".join(map("{:8d}".format, (superid, 0))))
+    wtnasints(f, 4, grids)
+''', "wtcsuper: the integer fields by map over a tuple")]
+)
+
+# ---- the full lines of a table written one by one instead of through writer.vecwrite
+_T1_LARGE_IF_VEC = '''        if rows:
+            writer.vecwrite(
+                f, "*       " + form * 2 + "\\n", t[:r:2], d[:r:2], t[1:r:2], d[1:r:2]
+            )
+'''
+
+RECIPES += (
+    _pair('''        line = "*       " + form * 2 + "\\n"
+        for k in range(0, r, 2):
+            f.write(line.format(t[k], d[k], t[k + 1], d[k + 1]))
+''', '''        line = "*       " + form * 2 + "\\n"
+        for k in range(0, r, 2):
+            f.write(line.format(t[k], d[k], d[k + 1], t[k + 1]))
+''', _T1_LARGE_IF_VEC, ["C13-R1"], "tabled1 large field: the full lines written one by one in a loop", "second pair of a line with ordinate and abscissa exchanged")
+    + [("C13", "break", ["C13-R1"], B, _T1_LARGE_IF_VEC, '''        line = "*       " + form * 2 + "\\n"
+        for k in range(0, npts, 2):
+            f.write(line.format(t[k], d[k], t[k + 1], d[k + 1]))
+''', "tabled1 large field: the loop over full lines runs to npts (reads past the end for an odd number of points, and the last pair is written twice)")]
+)
